@@ -372,6 +372,7 @@ func ruleReseekDirection(c *Ctx, r *R) {
 		r.ok(good, name+"|reseek", pos, "a lost cursor here must re-seek with "+want[name]+"(its remembered key) under lost(); found ["+got+"]: the exclusive seek skips a surviving key, the wrong direction moves the iterator backwards")
 	}
 	// strictness of the seek primitives is tied to their names
+	byCases := map[string]bool{}
 	type sk struct {
 		name string
 		op   token.Token // compare(k, c.k) OP 0 triggers the step
@@ -426,10 +427,27 @@ func ruleReseekDirection(c *Ctx, r *R) {
 				}
 			}
 		})
+		if !good {
+			// decided by cases over the sign of the comparison (a decision table, possibly in a shared helper with constant flags)
+			other := "Prev"
+			if s.step == "Prev" {
+				other = "Next"
+			}
+			good = stepsExactlyWhen(fn, s.op, s.step, other)
+			byCases[s.name] = good
+		}
 		r.ok(good, "cursor."+s.name+"|strictness", fn.Pos(), s.name+" lands on k's neighbourhood via seek() and must step with "+s.step+"() exactly when compare(k, c.k) "+s.op.String()+" 0")
 	}
-	mirrorPair(c, r, "tree|SeekFirstGreater~SeekLastLess", treeRel+".cursor.SeekFirstGreater", treeRel+".cursor.SeekLastLess", treeSeekDuality)
-	mirrorPair(c, r, "tree|SeekFirstGreaterOrEqual~SeekLastLessOrEqual", treeRel+".cursor.SeekFirstGreaterOrEqual", treeRel+".cursor.SeekLastLessOrEqual", treeSeekDuality)
+	for _, pr := range [][2]string{{"SeekFirstGreater", "SeekLastLess"}, {"SeekFirstGreaterOrEqual", "SeekLastLessOrEqual"}} {
+		key := "tree|" + pr[0] + "~" + pr[1]
+		if byCases[pr[0]] && byCases[pr[1]] && sameForwarders(cur(c, pr[0]), cur(c, pr[1])) {
+			// both hand their k to one shared helper and differ only in constant flags: what the helper does for each pair
+			// of flags was decided by cases above (the strictness obligations), everything else is the same code
+			r.discharged(key, cur(c, pr[0]).Pos(), "both forward to one helper with constant flags; each flag pair decided by cases")
+			continue
+		}
+		mirrorPair(c, r, key, treeRel+".cursor."+pr[0], treeRel+".cursor."+pr[1], treeSeekDuality)
+	}
 	if vf2, _ := iterVariants(c); vf2 != nil && vf2.merged {
 		// one iterator type with a direction flag: the constructors differ in exactly that field
 		useAstAliases(c, treeRel+".cursor.Forward")
@@ -549,4 +567,60 @@ func uncheckedDeref(f *ssa.Function, depth int) bool {
 // a direction flag - see variants.go).
 func iterVariants(c *Ctx) (*variant, *variant) {
 	return pairVariants(c, treeRel+".cursor.Forward", treeRel+".cursor.Backward", "Next", treeRel+".forwardIterator.Next", treeRel+".backwardIterator.Next")
+}
+
+// sameForwarders: a and b each consist of one call of the same in-package helper, with the same arguments except for
+// constants.
+func sameForwarders(a, b *ssa.Function) bool {
+	one := func(f *ssa.Function) *ssa.Call {
+		var only *ssa.Call
+		n := 0
+		if f == nil {
+			return nil
+		}
+		instrs(f, func(_ *ssa.BasicBlock, _ int, in ssa.Instruction) {
+			switch x := in.(type) {
+			case *ssa.Call:
+				only = x
+				n++
+			case *ssa.Store, *ssa.Go, *ssa.Defer, *ssa.Send:
+				n += 2
+			}
+		})
+		if n == 1 && len(f.Blocks) == 1 {
+			return only
+		}
+		return nil
+	}
+	ca, cb := one(a), one(b)
+	if ca == nil || cb == nil {
+		return false
+	}
+	ha, hb := staticCallee(&ca.Call), staticCallee(&cb.Call)
+	if ha == nil || hb == nil || origin(ha) != origin(hb) || len(ca.Call.Args) != len(cb.Call.Args) {
+		return false
+	}
+	for i := range ca.Call.Args {
+		x, y := ca.Call.Args[i], cb.Call.Args[i]
+		_, kx := x.(*ssa.Const)
+		_, ky := y.(*ssa.Const)
+		if kx && ky {
+			continue
+		}
+		px, okx := x.(*ssa.Parameter)
+		py, oky := y.(*ssa.Parameter)
+		if !okx || !oky || paramIndex(px) != paramIndex(py) {
+			return false
+		}
+	}
+	return true
+}
+
+func paramIndex(p *ssa.Parameter) int {
+	for i, q := range p.Parent().Params {
+		if q == p {
+			return i
+		}
+	}
+	return -1
 }
